@@ -587,7 +587,7 @@ class dir_archive(archive):
             root = os.path.realpath(self.__state__['id'])
             name = tempfile.mktemp(prefix="_____", dir="").replace("-","_")
             _arg = ".__args__" if input else ""
-            string = "from %s%s import memo as %s; sys.modules.pop('%s')" % (base, _arg, name, base)
+            string = "from %s%s import memo as %s; sys.modules.pop('%s%s', None); sys.modules.pop('%s', None)" % (base, _arg, name, base, _arg, base)
             try:
                 sys.path.insert(0, root)
                 exec(string, globals()) #FIXME: unsafe, potential name conflict
